@@ -3,22 +3,26 @@
 
   Model: `Kopf/Model/C13_Peering.lean`. `decideEv` is one call of `process_peering_event` on ANY status content (unknown
   keys, missing fields, garbled values, dead records, the own record); `step` is the shared peering object with any
-  number of operators under any order of starts, keep-alives (landing late), graceful exits (also with a lost
-  withdrawal), kills, deliveries of the CURRENT status (`deliver`) or of an OLDER view (`deliverStale`, whose `clean()`
-  lands on the current status), passing time and foreign writes.
+  number of operators under any order of starts, keep-alives (landing late), graceful exits in the order they ought to
+  have (`exit`) and in the order the code has (`exitBegin` … `exitEnd`: record withdrawn first, handling stopped last —
+  finding F7), exits with a lost withdrawal, kills, deliveries of the CURRENT status (`deliver`) or of an OLDER view
+  (`deliverStale`, whose `clean()` lands on the current status), passing time and foreign writes.
   `u` = ticks per second, lifetimes are whole seconds, `dead r now ⇔ lastseen + lifetime·u ≤ now`.
 
   What is and is not claimed (the property as written is FALSE of the code where views are old: findings F4/F5):
   * per call, for every status content: `paused_iff`, `turned_iff`, `dead_cleaned`, `wake_at_deadline`;
-  * for every label list: `withdrawn_stays(_from)`, `stale_verdict` (what a call on an old view does);
-  * under the guard "every processed view is current" (`Stable.current`, resp. batches of `deliver`): the `…_partial`
-    theorems; without it `stale_view_two_active_witness` (F4 in Lean, replayed on the real code: corpus/C13/F4.json);
+  * for every label list: `withdrawn_stays(_from)`;
+  * under the guard "every processed view is current OR BENIGN" (`Stable.current`, resp. batches of `deliver`; benign =
+    same verdict and same cleaning as the current status, `benign_stale_eq_deliver`): the `…_partial` theorems; outside
+    it `stale_view_two_active_witness` (F4 in Lean, replayed on the real code: corpus/C13/F4.json);
+  * the graceful stop of the code is the proper one with a window in between (`exit_two_phase`); in that window the
+    successor and the exiting operator are both active (`exit_overlap_two_active_witness`, F7, corpus/C13/F7.json);
   * for timely runs (`Timely`: API calls ≤ B ticks, no old views): `own_record_fresh`, backed by `renewal`;
   * progress / possibility: `resume_after_expiry`, `convergence_possible`.
   The pause EFFECTS (streams closed, daemons stopped, nothing handled beyond queued events, nothing handled twice) have
   no theorem here: they are checked by the simulation oracle only.
 -/
-import Kopf.Lemmas.C13_Converge
+import Kopf.Lemmas.C13_Failover
 namespace Kopf.C13
 
 /-! ## paused ⇔ a live peer of higher or equal priority -/
@@ -67,8 +71,11 @@ theorem turned_iff {u : Int} {ps : List Peer} {me : Identity} {p : Int} {ac t0 :
 
 /-- A stable state: every running operator has a fresh record carrying its priority, every fresh
     record belongs to a running operator, running priorities are distinct, and every running operator
-    has processed the latest version of the status AS ITS CURRENT VIEW (`deliver`, not `deliverStale`), no record
-    having expired since. `current` is the guard "every processed view is current". -/
+    has processed the latest version of the status as its current view (`deliver`) or through a BENIGN older view
+    (`deliverStale` with `benignView`: same verdict, same cleaning — `benign_stale_eq_deliver`), no record having expired
+    since. `current` is the guard; what it excludes is exactly a last view whose verdict or cleaning differs from the
+    current status' (findings F4/F5), and it says nothing of an operator between `exitBegin` and `exitEnd` having a record
+    (`Good` fails there: F7). -/
 structure Stable (u : Int) (s : State) : Prop where
   good : Good u s
   current : ∀ i op, s.ops i = some op → op.alive = true →
@@ -147,23 +154,67 @@ theorem stale_view_two_active_witness :
         (fun s => ((s.ops "A").map (fun o => (o.alive, o.paused)), (s.ops "B").map (fun o => (o.alive, o.paused)), s.status))
       = some (some (true, false), some (true, false), [("B", ⟨10, 10, 0⟩)]) := by decide
 
-/-- What a call on an old view does, for every view: the verdict is about the VIEW (a peer of another identity, live at
-    the operator's own clock, priority ≥ own), and the clean removes from the CURRENT status every record — whatever it
-    says now — of each other identity that has a dead record in the view. -/
-theorem stale_verdict {u : Int} {s s' : State} {i : Identity} {view : Status}
-    (h : step u s (.deliverStale i view) = some s') :
-    ∃ o o', s.ops i = some o ∧ s'.ops i = some o' ∧ o'.prio = o.prio ∧ o'.seen = none ∧
-      (o'.paused = true ↔
-        ∃ j r, (j, r) ∈ view ∧ j ≠ i ∧ s.now < r.lastseen + r.lifetime * u ∧ r.priority ≥ o.prio) ∧
-      ∀ j r, (j, r) ∈ s'.status ↔
-        ((j, r) ∈ s.status ∧ ¬ (j ≠ i ∧ ∃ r', (j, r') ∈ view ∧ r'.lastseen + r'.lifetime * u ≤ s.now)) := by
-  obtain ⟨o, ho, _, _, hst, hops⟩ := stale_spec h
-  refine ⟨o, { o with paused := blockedB u view i o.prio s.now, seen := none, sleeping := willTouchView u view i o s.now },
-    ho, by rw [hops]; simp, rfl, rfl, ?_, ?_⟩
-  · simp only [blockedB_iff, dead_false_iff]
-  · intro j r
-    rw [hst, mem_eraseAll, mem_staleCleaned]
-    simp only [dead_true_iff]
+/-- A view need not be the current status to be harmless: if, judged at the operator's clock, it blocks the operator exactly
+    as the current status does and names for cleaning exactly the identities whose current records are dead (`benignView`:
+    nobody renewed, restarted or wrote under those identities since), then processing it IS processing the current status
+    — the same next state, `seen` included. So `Stable.current`, and with it every `_partial` theorem of this file, covers
+    such views; the guard excludes exactly the views of findings F4/F5 (a record judged dead that has been replaced,
+    or a verdict that differs). -/
+theorem benign_stale_eq_deliver {u : Int} {s : State} {i : Identity} {view : Status} {o : Op}
+    (ho : s.ops i = some o) (hb : benignView u s i o.prio view = true) :
+    step u s (.deliverStale i view) = step u s (.deliver i) := by
+  have hbv := hb
+  simp only [benignView, Bool.and_eq_true, beq_iff_eq, decide_eq_true_eq] at hb
+  obtain ⟨hbl, hcl⟩ := hb
+  simp only [step, ho]
+  by_cases hg : (o.alive && !o.exiting) = true
+  · rw [if_pos hg, if_pos hg]
+    -- same cleaning (hence same version bump and status), same verdict, same sleep, same `seen`
+    have hst : s.status.eraseAll (decideCore u view.peers i o.prio true (some o.paused) s.now s.now).cleaned =
+        s.status.filter (fun e => !(e.2.dead u s.now && e.1 != i)) := by
+      simpa [decideCore] using hcl
+    simp only [hst, decideCore_status_paused, decideCore_touch, hbl, hbv, if_true]
+  · rw [if_neg hg, if_neg hg]
+
+/-! ## the graceful stop of the code (finding F7) -/
+
+/-- The code's graceful stop (`exitBegin`: the pinger's `finally` withdraws the record; … ; `exitEnd`: the watchers and the
+    handlers they run have stopped) is the proper stop (`exit`) whenever nothing happens in between: the two steps compose
+    to the one. Every difference between the code and `failover_exit_partial`/`withdrawn_stays` is therefore what other
+    operators do between the two steps. -/
+theorem exit_two_phase (u : Int) (s : State) (i : Identity) :
+    (step u s (.exitBegin i)).bind (fun s1 => step u s1 (.exitEnd i)) = step u s (.exit i) := by
+  simp only [step]
+  cases ho : s.ops i with
+  | none => rfl
+  | some o =>
+    by_cases hg : (o.alive && !o.exiting) = true
+    · have ha := (guard_iff.mp hg).1
+      simp only [hg, if_true, Option.bind_some, updOp_same, ha, Bool.and_self]
+      congr 2
+      funext k
+      by_cases hk : k = i <;> simp [updOp, hk]
+    · simp only [hg]; rfl
+
+/-- F7 in Lean. A (priority 100) is active, B (priority 10) is paused, everybody has seen the current status. A is told
+    to stop: its record is withdrawn FIRST (`exitBegin`) while it still handles what it has started. B sees the status
+    without A and resumes: A and B are both running and both active (second conjunct) until A's handling has ended
+    (`exitEnd`, third conjunct) — with no old view, no lost call, no late clock involved. The state in between is reachable
+    and every operator's last view is current, so only `Good` (A has no record) keeps it out of `Stable`.
+    Replayed on the real code: corpus/C13/F7.json (a handler that takes 1.5 s; B handles the same change again). -/
+theorem exit_overlap_two_active_witness :
+    (run 64 init [.start "A" 100 10, .start "B" 10 8, .keepalive "A" 0, .keepalive "B" 0, .deliver "A", .deliver "B"]).map
+        (fun s => ((s.ops "A").map (fun o => (o.alive, o.paused)), (s.ops "B").map (fun o => (o.alive, o.paused))))
+      = some (some (true, false), some (true, true)) ∧
+    (run 64 init [.start "A" 100 10, .start "B" 10 8, .keepalive "A" 0, .keepalive "B" 0, .deliver "A", .deliver "B",
+                  .exitBegin "A", .deliver "B"]).map
+        (fun s => ((s.ops "A").map (fun o => (o.alive, o.exiting, o.paused)), (s.ops "B").map (fun o => (o.alive, o.paused)),
+                   s.status.map (·.1), (s.ops "B").map (·.seen) == some (some (s.ver, s.now))))
+      = some (some (true, true, false), some (true, false), ["B"], true) ∧
+    (run 64 init [.start "A" 100 10, .start "B" 10 8, .keepalive "A" 0, .keepalive "B" 0, .deliver "A", .deliver "B",
+                  .exitBegin "A", .deliver "B", .exitEnd "A"]).map
+        (fun s => ((s.ops "A").map (·.alive), (s.ops "B").map (fun o => (o.alive, o.paused))))
+      = some (some false, some (true, false)) := by decide
 
 /-! ## settling and failover -/
 
@@ -188,7 +239,7 @@ theorem failover_exit_partial {u : Int} {s s1 s2 : State} {a : Identity} (hg : G
     ExactlyTop s2 ∧ (∀ op, s2.ops a = some op → op.alive = false) ∧ ∀ r, (a, r) ∉ s2.status := by
   have hg1 := good_after_exit hg h1
   obtain ⟨htop, hg2⟩ := settle hg1 ls hdel hcov h2
-  obtain ⟨o, ho, _, _, hst, hops⟩ := exit_spec h1
+  obtain ⟨o, ho, _, _, hst, hops, _⟩ := exit_spec h1
   obtain ⟨hnow, hstat, hsame, _⟩ := run_delivers ls s1 s2 hdel h2
   refine ⟨htop, ?_, ?_⟩
   · intro op hop
@@ -226,19 +277,47 @@ theorem failover_exit_partial {u : Int} {s s1 s2 : State} {a : Identity} (hg : G
       rw [hst] at this
       exact (mem_erase.mp this).2 rfl
 
-/-- PARTIAL (same guard). A graceful exit whose withdrawal PATCH is lost (`keepalive`'s `finally` logs and ignores every
-    error) is a kill as far as the peers can tell: the record stays until it expires; from the moment it has (the others
-    having renewed theirs) the operators see each other again and `settle_partial` applies. -/
-theorem failover_lost_exit_partial {u : Int} {s s1 s2 s3 : State} {a : Identity} (h1 : step u s (.exitLost a) = some s1)
-    (hstay : s1.status = s.status → Good u s2) (ls : List Label)
-    (hdel : ∀ l ∈ ls, ∃ i, l = Label.deliver i)
+/- Full clause: "… also after the active one … is killed" — for every delivery timing. -/
+/-- PARTIAL (guards: the survivors process current or benign views — `Quiet` has no `deliverStale` —, and their own
+    records are fresh at the end: `hown`, which `own_record_fresh` provides for timely runs). An operator `a` is lost: killed,
+    or exited with its withdrawal refused by the API (`exitLost`: `keepalive`'s `finally` logs and ignores the error — for the
+    peers the same as a kill). Then ANY interleaving `mid` of passing time, keep-alives, self-touches and deliveries of the
+    survivors may follow; as soon as `a`'s records have expired (`hexp`) and every running operator has processed the
+    status once more (`ls`), exactly the top one of the survivors is active. `noGhost` and `distinct` are not assumed
+    at the end but carried through `mid` from the `Good` state before the loss. -/
+theorem failover_after_loss_partial {u : Int} {s s1 s2 s3 : State} {a : Identity} (hg : Good u s) (hsa : SleepAlive s)
+    (h1 : step u s (.kill a) = some s1 ∨ step u s (.exitLost a) = some s1)
+    (mid : List Label) (hq : ∀ l ∈ mid, Quiet l) (h2 : run u s1 mid = some s2)
+    (hexp : ∀ r, (a, r) ∈ s2.status → r.dead u s2.now = true)
+    (hown : ∀ i o, s2.ops i = some o → o.alive = true →
+      ∃ r, (i, r) ∈ s2.status ∧ r.priority = o.prio ∧ r.dead u s2.now = false)
+    (ls : List Label) (hdel : ∀ l ∈ ls, ∃ i, l = Label.deliver i)
     (hcov : ∀ i op, s2.ops i = some op → op.alive = true → Label.deliver i ∈ ls)
     (h3 : run u s2 ls = some s3) :
-    s1.status = s.status ∧ (∃ o, s1.ops a = some o ∧ o.alive = false) ∧ ExactlyTop s3 := by
-  obtain ⟨o, _, _, _, hst, hops⟩ := exitLost_spec h1
-  have hgone : ∃ o', s1.ops a = some o' ∧ o'.alive = false :=
-    ⟨{ o with alive := false, sleeping := false }, by rw [hops]; simp, rfl⟩
-  exact ⟨hst, hgone, (settle (hstay hst) ls hdel hcov h3).1⟩
+    ExactlyTop s3 ∧ (∃ o, s2.ops a = some o ∧ o.alive = false) := by
+  obtain ⟨hgo1, ⟨oa, hoa, haa⟩, hdist1, hsa1⟩ := loss_spec hg h1
+  obtain ⟨hgo2, _, hso⟩ := quiet_run mid s1 s2 hq hgo1 (hsa1 hsa) h2
+  have ha2 : ∃ o, s2.ops a = some o ∧ o.alive = false := by
+    rcases hso a with ⟨x, _⟩ | ⟨o, o', ho, ho', _, hal⟩
+    · rw [x] at hoa; cases hoa
+    · rw [hoa] at ho; injection ho with e; subst e
+      exact ⟨o', ho', by rw [hal]; exact haa⟩
+  have hg2 : Good u s2 := by
+    refine ⟨hown, ?_, ?_⟩
+    · intro j r hm hd
+      rcases hgo2 j r hm hd with hja | h
+      · subst hja; rw [hexp r hm] at hd; cases hd
+      · exact h
+    · intro i j oi oj hi hj hai haj hp
+      have back : ∀ k ok, s2.ops k = some ok → ∃ o1, s1.ops k = some o1 ∧ ok.prio = o1.prio ∧ ok.alive = o1.alive := by
+        intro k ok hk
+        rcases hso k with ⟨_, y⟩ | ⟨o, o', ho, ho', hpp, hal⟩
+        · rw [y] at hk; cases hk
+        · rw [ho'] at hk; injection hk with e; subst e; exact ⟨o, ho, hpp, hal⟩
+      obtain ⟨a1, h1', hp1, ha1⟩ := back i oi hi
+      obtain ⟨b1, h2', hp2, ha2'⟩ := back j oj hj
+      exact hdist1 i j a1 b1 h1' h2' (by rw [← ha1]; exact hai) (by rw [← ha2']; exact haj) (by omega)
+  exact ⟨(settle hg2 ls hdel hcov h3).1, ha2⟩
 
 /-- How the waiting operators get there: a paused operator sleeps exactly until the earliest deadline
     among the peers that block it — the moment that peer counts as dead — and then touches its own
@@ -282,7 +361,7 @@ theorem wake_at_deadline {u : Int} {ps : List Peer} {me : Identity} {p : Int} {a
     killed or lost one). When time has passed up to `a`'s last deadline, the sleeping call CAN wake (the label is enabled),
     its self-touch lands, the event it causes is delivered to `i`, and `i` is then active. -/
 theorem resume_after_expiry {u : Int} {s s1 : State} {i a : Identity} {o : Op} (lag : Nat)
-    (ho : s.ops i = some o) (hal : o.alive = true) (hsl : o.sleeping = true)
+    (ho : s.ops i = some o) (hal : o.alive = true) (hex : o.exiting = false) (hsl : o.sleeping = true)
     (honly : ∀ j r, (j, r) ∈ s.status → j ≠ i → r.dead u s.now = false → r.priority ≥ o.prio → j = a)
     (h1 : step u s (.expire a) = some s1) :
     ∃ s2 s3 o3, step u s1 (.wake i lag) = some s2 ∧ step u s2 (.deliver i) = some s3 ∧
@@ -297,12 +376,12 @@ theorem resume_after_expiry {u : Int} {s s1 : State} {i a : Identity} {o : Op} (
   have hw : ∃ s2, step u s1 (.wake i lag) = some s2 := by
     simp only [step, ho1, hsl, if_true]; exact ⟨_, rfl⟩
   obtain ⟨s2, h2⟩ := hw
-  obtain ⟨o', ho', _, hnow2, hst2, hops2⟩ := wake_spec h2
+  obtain ⟨o', ho', _, hnow2, hst2, hops2, _⟩ := wake_spec h2
   rw [ho1] at ho'; injection ho' with ho'; subst ho'
   have ho2 : s2.ops i = some { o with sleeping := false } := by rw [hops2]; simp
   -- the event is delivered
   have hd : ∃ s3, step u s2 (.deliver i) = some s3 := by
-    simp only [step, ho2, hal, if_true]; exact ⟨_, rfl⟩
+    simp only [step, ho2, hal, hex]; exact ⟨_, rfl⟩
   obtain ⟨s3, h3⟩ := hd
   obtain ⟨o2, ho2', _, _, _, _, _, hops3⟩ := deliver_spec h3
   rw [ho2] at ho2'; injection ho2' with ho2'; subst ho2'
@@ -371,21 +450,6 @@ theorem own_record_fresh {u B : Int} {s : State} (hu : 0 < u) (hB : 0 ≤ B) (ht
   rw [dead_false_iff, hl]
   omega
 
-/-- A keep-alive of a running operator with `lifetime ≥ 1`, landing `lag` ticks after it was stamped, puts a record
-    stamped `now − lag` with its priority, and leaves no other record under its identity. -/
-theorem keepalive_writes {u : Int} {s s' : State} {i : Identity} {o : Op} {lag : Nat} (hu : 0 < u) (ho : s.ops i = some o)
-    (hL : 1 ≤ o.lifetime) (h : step u s (.keepalive i lag) = some s') :
-    (i, { priority := o.prio, lifetime := o.lifetime, lastseen := s.now - lag }) ∈ s'.status ∧
-      ∀ r, (i, r) ∈ s'.status → r = { priority := o.prio, lifetime := o.lifetime, lastseen := s.now - lag } := by
-  obtain ⟨o', ho', _, _, hst, _⟩ := keepalive_spec h
-  rw [ho] at ho'; injection ho' with ho'; subst ho'
-  rw [hst, touchVal_pos hu hL]
-  refine ⟨mem_set.mpr (Or.inl ⟨rfl, rfl⟩), ?_⟩
-  intro r hm
-  rcases mem_set.mp hm with ⟨_, rfl⟩ | ⟨hne, _⟩
-  · rfl
-  · exact absurd rfl hne
-
 /-! ## withdrawal and cleanup -/
 
 /-- A graceful exit removes the own record (all of it), leaves the records of others alone, and the
@@ -393,8 +457,8 @@ theorem keepalive_writes {u : Int} {s s' : State} {i : Identity} {o : Op} {lag :
 theorem withdraw_on_exit {u : Int} {s s' : State} {i : Identity} (h : step u s (.exit i) = some s') :
     (∀ r, (i, r) ∉ s'.status) ∧ (∀ j r, j ≠ i → ((j, r) ∈ s'.status ↔ (j, r) ∈ s.status)) ∧
       ∃ o, s'.ops i = some o ∧ o.alive = false := by
-  obtain ⟨o, _, _, _, hst, hops⟩ := exit_spec h
-  refine ⟨?_, ?_, ⟨{ o with alive := false, sleeping := false }, by rw [hops]; simp, rfl⟩⟩
+  obtain ⟨o, _, _, _, hst, hops, _⟩ := exit_spec h
+  refine ⟨?_, ?_, ⟨{ o with alive := false, sleeping := false, nextKA := none }, by rw [hops]; simp, rfl⟩⟩
   · intro r hm
     rw [hst] at hm
     exact (mem_erase.mp hm).2 rfl
@@ -478,26 +542,32 @@ theorem withdrawn_stays_from {u : Int} {i : Identity} : ∀ (ls : List Label) (s
           have hji : i ≠ j := fun e => hl1 p lt (by rw [e])
           exact ⟨⟨o, by rw [hops, updOp_other _ _ hji]; exact ho, hoa, hos⟩, fun r hm => hn r (by rw [hst] at hm; exact hm)⟩
         | keepalive j lag =>
-          obtain ⟨oj, hj, hja, _, hst, hops⟩ := keepalive_spec hs
+          obtain ⟨oj, hj, hja, _, _, _, hst, hops⟩ := keepalive_spec hs
           refine other hj (Or.inl hja) hops ?_
           intro r hm
           by_cases hji : j = i
           · subst hji; rw [ho] at hj; injection hj with hj; subst hj; rw [hoa] at hja; cases hja
           · rw [hst] at hm; exact Or.inl ((mem_patch_other hji).mp hm)
         | exit j =>
-          obtain ⟨oj, hj, hja, _, hst, hops⟩ := exit_spec hs
+          obtain ⟨oj, hj, hja, _, hst, hops, _⟩ := exit_spec hs
           exact other hj (Or.inl hja) hops (fun r hm => by rw [hst] at hm; exact Or.inl (mem_erase.mp hm).1)
         | exitLost j =>
-          obtain ⟨oj, hj, hja, _, hst, hops⟩ := exitLost_spec hs
+          obtain ⟨oj, hj, hja, _, hst, hops, _⟩ := exitLost_spec hs
+          exact other hj (Or.inl hja) hops (fun r hm => by rw [hst] at hm; exact Or.inl hm)
+        | exitBegin j =>
+          obtain ⟨oj, hj, hja, _, _, hst, hops, _⟩ := exitBegin_spec hs
+          exact other hj (Or.inl hja) hops (fun r hm => by rw [hst] at hm; exact Or.inl (mem_erase.mp hm).1)
+        | exitEnd j =>
+          obtain ⟨oj, hj, hja, _, _, hst, _, hops⟩ := exitEnd_spec hs
           exact other hj (Or.inl hja) hops (fun r hm => by rw [hst] at hm; exact Or.inl hm)
         | kill j =>
-          obtain ⟨oj, hj, hja, _, hst, hops⟩ := kill_spec hs
+          obtain ⟨oj, hj, hja, _, hst, hops, _⟩ := kill_spec hs
           exact other hj (Or.inl hja) hops (fun r hm => by rw [hst] at hm; exact Or.inl hm)
         | deliver j =>
           obtain ⟨oj, hj, hja, _, hst, _, _, hops⟩ := deliver_spec hs
           exact other hj (Or.inl hja) hops (fun r hm => by rw [hst] at hm; exact Or.inl (List.mem_filter.mp hm).1)
         | deliverStale j view =>
-          obtain ⟨oj, hj, hja, _, hst, hops⟩ := stale_spec hs
+          obtain ⟨oj, hj, hja, _, hst, _, _, hops⟩ := stale_spec hs
           exact other hj (Or.inl hja) hops (fun r hm => by rw [hst] at hm; exact Or.inl (mem_eraseAll.mp hm).1)
         | tick d =>
           simp only [step, Option.some.injEq] at hs; subst hs
@@ -516,7 +586,7 @@ theorem withdrawn_stays_from {u : Int} {i : Identity} : ∀ (ls : List Label) (s
             | some r' => exact absurd rfl (hl2 r')
           · exact (mem_patch_other hji).mp hm
         | wake j lag =>
-          obtain ⟨oj, hj, hjs, _, hst, hops⟩ := wake_spec hs
+          obtain ⟨oj, hj, hjs, _, hst, hops, _⟩ := wake_spec hs
           refine other hj (Or.inr hjs) hops ?_
           intro r hm
           by_cases hji : j = i
@@ -539,7 +609,7 @@ theorem withdrawn_stays {u : Int} {i : Identity} {s s1 s' : State} (h1 : step u 
     inevitability: nothing forces the environment to be that kind — see `stale_view_two_active_witness`.) -/
 theorem convergence_possible {u : Int} {s : State} (hu : 0 < u) (ids : List Identity)
     (hcov : ∀ i o, s.ops i = some o → o.alive = true → i ∈ ids)
-    (hL : ∀ i o, s.ops i = some o → o.alive = true → 1 ≤ o.lifetime)
+    (hL : ∀ i o, s.ops i = some o → o.alive = true → 1 ≤ o.lifetime ∧ o.exiting = false)
     (hdist : ∀ i j oi oj, s.ops i = some oi → s.ops j = some oj → oi.alive = true → oj.alive = true →
       oi.prio = oj.prio → i = j) :
     ∃ ls s', run u s ls = some s' ∧ ExactlyTop s' ∧ Good u s' := by
@@ -557,35 +627,35 @@ theorem convergence_possible {u : Int} {s : State} (hu : 0 < u) (ids : List Iden
   obtain ⟨d, hd⟩ := exists_tick_all_dead u s.now s.status
   let s1 : State := { s with now := s.now + d }
   have h1 : step u s (.tick d) = some s1 := rfl
-  have hall1 : ∀ j ∈ js, ∃ o, s1.ops j = some o ∧ o.alive = true ∧ 1 ≤ o.lifetime := by
+  have hall1 : ∀ j ∈ js, ∃ o, s1.ops j = some o ∧ o.alive = true ∧ o.exiting = false ∧ 1 ≤ o.lifetime := by
     intro j hj
     obtain ⟨_, o, ho, ha⟩ := (hjs j).mp hj
-    exact ⟨o, ho, ha, hL j o ho ha⟩
+    exact ⟨o, ho, ha, (hL j o ho ha).2, (hL j o ho ha).1⟩
   obtain ⟨s2, h2, hnow2, heq2, hrec2⟩ := run_keepalives hu js s1 hall1
   -- who runs in s2 runs in s, same priority and lifetime
-  have back : ∀ i o2, s2.ops i = some o2 → ∃ o, s.ops i = some o ∧ o2.prio = o.prio ∧ o2.lifetime = o.lifetime ∧ o2.alive = o.alive := by
+  have back : ∀ i o2, s2.ops i = some o2 → ∃ o, s.ops i = some o ∧ o2.prio = o.prio ∧ o2.lifetime = o.lifetime ∧ o2.alive = o.alive ∧ o2.exiting = o.exiting := by
     intro i o2 h
-    rcases heq2 i with ⟨_, y⟩ | ⟨a, a', ha, ha', hp, hl, hal⟩
+    rcases heq2 i with ⟨_, y⟩ | ⟨a, a', ha, ha', hp, hl, hal, hex⟩
     · rw [y] at h; cases h
     · rw [ha'] at h; injection h with e; subst e
-      exact ⟨a, ha, hp, hl, hal⟩
-  have fwd : ∀ i o, s.ops i = some o → ∃ o2, s2.ops i = some o2 ∧ o2.prio = o.prio ∧ o2.lifetime = o.lifetime ∧ o2.alive = o.alive := by
+      exact ⟨a, ha, hp, hl, hal, hex⟩
+  have fwd : ∀ i o, s.ops i = some o → ∃ o2, s2.ops i = some o2 ∧ o2.prio = o.prio ∧ o2.lifetime = o.lifetime ∧ o2.alive = o.alive ∧ o2.exiting = o.exiting := by
     intro i o h
-    rcases heq2 i with ⟨x, _⟩ | ⟨a, a', ha, ha', hp, hl, hal⟩
+    rcases heq2 i with ⟨x, _⟩ | ⟨a, a', ha, ha', hp, hl, hal, hex⟩
     · have : s.ops i = none := x
       rw [this] at h; cases h
     · have ha0 : s.ops i = some a := ha
       rw [ha0] at h; injection h with e; subst e
-      exact ⟨a', ha', hp, hl, hal⟩
+      exact ⟨a', ha', hp, hl, hal, hex⟩
   have hg2 : Good u s2 := by
     constructor
     · intro i o2 hi ha
-      obtain ⟨o, ho, hp, hl, hal⟩ := back i o2 hi
+      obtain ⟨o, ho, hp, hl, hal, _⟩ := back i o2 hi
       have hoa : o.alive = true := by rw [← hal]; exact ha
       have hij : i ∈ js := (hjs i).mpr ⟨hcov i o ho hoa, o, ho, hoa⟩
       refine ⟨{ priority := o.prio, lifetime := o.lifetime, lastseen := s1.now }, (hrec2 i _).mpr (Or.inl ⟨hij, o, ho, rfl⟩), hp.symm, ?_⟩
       rw [dead_false_iff, hnow2]
-      have : 0 < o.lifetime * u := Int.mul_pos (by have := hL i o ho hoa; omega) hu
+      have : 0 < o.lifetime * u := Int.mul_pos (by have := (hL i o ho hoa).1; omega) hu
       show s1.now < s1.now + o.lifetime * u
       omega
     · intro j r hm hlive
@@ -593,7 +663,7 @@ theorem convergence_possible {u : Int} {s : State} (hu : 0 < u) (ids : List Iden
       · obtain ⟨_, o', ho', ha'⟩ := (hjs j).mp hj
         have ho0 : s.ops j = some o := ho
         rw [ho0] at ho'; injection ho' with e; subst e
-        obtain ⟨o2, ho2, hp, _, hal⟩ := fwd j o ho0
+        obtain ⟨o2, ho2, hp, _, hal, _⟩ := fwd j o ho0
         exact ⟨o2, ho2, by rw [hal]; exact ha', by rw [hr, hp]⟩
       · have := hd (j, r) hm1
         rw [hnow2] at hlive
@@ -601,19 +671,19 @@ theorem convergence_possible {u : Int} {s : State} (hu : 0 < u) (ids : List Iden
         rw [e, this] at hlive
         cases hlive
     · intro i j oi oj hi hj hai haj hp
-      obtain ⟨a, ha, hpa, _, hala⟩ := back i oi hi
-      obtain ⟨b, hb, hpb, _, halb⟩ := back j oj hj
+      obtain ⟨a, ha, hpa, _, hala, _⟩ := back i oi hi
+      obtain ⟨b, hb, hpb, _, halb, _⟩ := back j oj hj
       exact hdist i j a b ha hb (by rw [← hala]; exact hai) (by rw [← halb]; exact haj) (by omega)
-  have hall2 : ∀ j ∈ js, ∃ o, s2.ops j = some o ∧ o.alive = true := by
+  have hall2 : ∀ j ∈ js, ∃ o, s2.ops j = some o ∧ o.alive = true ∧ o.exiting = false := by
     intro j hj
     obtain ⟨_, o, ho, ha⟩ := (hjs j).mp hj
-    obtain ⟨o2, ho2, _, _, hal⟩ := fwd j o ho
-    exact ⟨o2, ho2, by rw [hal]; exact ha⟩
+    obtain ⟨o2, ho2, _, _, hal, hex⟩ := fwd j o ho
+    exact ⟨o2, ho2, by rw [hal]; exact ha, by rw [hex]; exact (hL j o ho ha).2⟩
   obtain ⟨s3, h3⟩ := run_delivers_enabled js s2 hall2
   have hres := settle hg2 (js.map Label.deliver)
     (fun l hl => by obtain ⟨j, _, rfl⟩ := List.mem_map.mp hl; exact ⟨j, rfl⟩)
     (fun i o2 hi ha => by
-      obtain ⟨o, ho, _, _, hal⟩ := back i o2 hi
+      obtain ⟨o, ho, _, _, hal, _⟩ := back i o2 hi
       have hoa : o.alive = true := by rw [← hal]; exact ha
       exact List.mem_map.mpr ⟨i, (hjs i).mpr ⟨hcov i o ho hoa, o, ho, hoa⟩, rfl⟩) h3
   refine ⟨[.tick d] ++ js.map (fun j => Label.keepalive j 0) ++ js.map Label.deliver, s3, ?_, hres.1, hres.2⟩
@@ -717,7 +787,7 @@ example : ∃ s s1 s2, exStable = some s ∧ step 64 s (.exit "A") = some s1 ∧
     obtain ⟨s2, h2⟩ := hB
     have hcov : ∀ i op, s1.ops i = some op → op.alive = true → Label.deliver i ∈ [Label.deliver "B"] := by
       intro i op hi ha
-      obtain ⟨o, ho, _, _, _, hops1⟩ := exit_spec h1
+      obtain ⟨o, ho, _, _, _, hops1, _⟩ := exit_spec h1
       rw [hops1] at hi
       by_cases hiA : i = "A"
       · subst hiA; simp at hi; subst hi; simp at ha
@@ -741,7 +811,7 @@ example : ∃ s s1 s2 s3 o3, run 64 init [.start "A" 100 2, .start "B" 10 10, .k
   | none => exact absurd h (by decide)
   | some s =>
     have fB : (run 64 init [.start "A" 100 2, .start "B" 10 10, .keepalive "A" 0, .keepalive "B" 0, .deliver "B", .kill "A"]).map
-        (fun s => (s.ops "B").map (fun o => (o.alive, o.sleeping, o.prio))) = some (some (true, true, 10)) := by decide
+        (fun s => (s.ops "B").map (fun o => (o.alive, o.exiting, o.sleeping, o.prio))) = some (some (true, false, true, 10)) := by decide
     have fS : (run 64 init [.start "A" 100 2, .start "B" 10 10, .keepalive "A" 0, .keepalive "B" 0, .deliver "B", .kill "A"]).map
         (·.status) = some [("A", ⟨100, 2, 0⟩), ("B", ⟨10, 10, 0⟩)] := by decide
     rw [h] at fB fS
@@ -750,10 +820,10 @@ example : ∃ s s1 s2 s3 o3, run 64 init [.start "A" 100 2, .start "B" 10 10, .k
     | none => simp [hB] at fB
     | some o =>
       simp only [hB, Option.map_some, Option.some.injEq, Prod.mk.injEq] at fB
-      obtain ⟨hal, hsl, hp⟩ := fB
+      obtain ⟨hal, hex, hsl, hp⟩ := fB
       have h1 : ∃ s1, step 64 s (.expire "A") = some s1 := ⟨_, rfl⟩
       obtain ⟨s1, h1⟩ := h1
-      obtain ⟨s2, s3, o3, h2, h3, h4, h5, h6⟩ := resume_after_expiry (a := "A") 1 hB hal hsl (by
+      obtain ⟨s2, s3, o3, h2, h3, h4, h5, h6⟩ := resume_after_expiry (a := "A") 1 hB hal hex hsl (by
         intro j r hm hj _ _
         rw [fS] at hm
         simp only [List.mem_cons, Prod.mk.injEq, List.mem_nil_iff, or_false] at hm
@@ -774,8 +844,8 @@ example : ∃ s, run 64 init [.start "A" 100 2, .start "B" 10 10, .keepalive "A"
     refine ⟨s, rfl, ?_⟩
     have f : (run 64 init [.start "A" 100 2, .start "B" 10 10, .keepalive "A" 0, .keepalive "B" 0, .deliver "A", .deliver "B",
         .tick 64, .keepalive "A" 0, .tick 64, .deliverStale "B" [("A", ⟨100, 2, 0⟩), ("B", ⟨10, 10, 0⟩)]]).map
-        (fun s => ((s.ops "A").map (fun o => (o.prio, o.lifetime)), (s.ops "B").map (fun o => (o.prio, o.lifetime)))) =
-        some (some (100, 2), some (10, 10)) := by decide
+        (fun s => ((s.ops "A").map (fun o => (o.prio, o.lifetime, o.exiting)), (s.ops "B").map (fun o => (o.prio, o.lifetime, o.exiting)))) =
+        some (some (100, 2, false), some (10, 10, false)) := by decide
     rw [h] at f
     simp only [Option.map_some, Option.some.injEq, Prod.mk.injEq] at f
     have hn : ∀ i, i ≠ "A" → i ≠ "B" → s.ops i = none := by
@@ -792,16 +862,110 @@ example : ∃ s, run 64 init [.start "A" 100 2, .start "B" 10 10, .keepalive "A"
       | none => simp [hB] at f
       | some ob =>
         simp only [hA, hB, Option.map_some, Option.some.injEq, Prod.mk.injEq] at f
-        obtain ⟨⟨hpa, hla⟩, hpb, hlb⟩ := f
+        obtain ⟨⟨hpa, hla, hea⟩, hpb, hlb, heb⟩ := f
         have hops := ops_of_two hA hB hn
         refine convergence_possible (by decide) ["A", "B"] ?_ ?_ ?_
         · intro i o hi _
           rcases hops i o hi with ⟨rfl, _⟩ | ⟨rfl, _⟩ <;> simp
         · intro i o hi _
-          rcases hops i o hi with ⟨rfl, rfl⟩ | ⟨rfl, rfl⟩ <;> omega
+          rcases hops i o hi with ⟨rfl, rfl⟩ | ⟨rfl, rfl⟩
+          · exact ⟨by omega, hea⟩
+          · exact ⟨by omega, heb⟩
         · intro i j oi oj hi hj _ _ hp
           rcases hops i oi hi with ⟨rfl, rfl⟩ | ⟨rfl, rfl⟩ <;> rcases hops j oj hj with ⟨rfl, rfl⟩ | ⟨rfl, rfl⟩ <;>
             first | rfl | (exfalso; omega)
+
+/-- `benign_stale_eq_deliver` instantiated with a view that is NOT the current status: B's keep-alive has landed since the
+    view was taken (B's record stamped 64 now, 0 in the view); for A the view is benign, and processing it gives the very
+    state processing the current status gives. The view of `stale_view_two_active_witness` is not benign. -/
+example : ∃ s o, run 64 init [.start "A" 100 10, .start "B" 10 8, .keepalive "A" 0, .keepalive "B" 0, .tick 64, .keepalive "B" 0] = some s ∧
+    s.ops "A" = some o ∧ s.status ≠ [("A", ⟨100, 10, 0⟩), ("B", ⟨10, 8, 0⟩)] ∧
+    benignView 64 s "A" o.prio [("A", ⟨100, 10, 0⟩), ("B", ⟨10, 8, 0⟩)] = true ∧
+    step 64 s (.deliverStale "A" [("A", ⟨100, 10, 0⟩), ("B", ⟨10, 8, 0⟩)]) = step 64 s (.deliver "A") := by
+  cases h : run 64 init [.start "A" 100 10, .start "B" 10 8, .keepalive "A" 0, .keepalive "B" 0, .tick 64, .keepalive "B" 0] with
+  | none => exact absurd h (by decide)
+  | some s =>
+    have f : (run 64 init [.start "A" 100 10, .start "B" 10 8, .keepalive "A" 0, .keepalive "B" 0, .tick 64, .keepalive "B" 0]).map
+        (fun s => (decide (s.status ≠ [("A", ⟨100, 10, 0⟩), ("B", ⟨10, 8, 0⟩)]),
+                   (s.ops "A").map (fun o => benignView 64 s "A" o.prio [("A", ⟨100, 10, 0⟩), ("B", ⟨10, 8, 0⟩)]))) =
+        some (true, some true) := by decide
+    rw [h] at f
+    simp only [Option.map_some, Option.some.injEq, Prod.mk.injEq, decide_eq_true_eq] at f
+    cases hA : s.ops "A" with
+    | none => simp [hA] at f
+    | some o =>
+      simp only [hA, Option.map_some, Option.some.injEq] at f
+      exact ⟨s, o, rfl, rfl, f.1, f.2, benign_stale_eq_deliver hA f.2⟩
+
+example : (run 64 init [.start "A" 100 2, .start "B" 10 10, .keepalive "A" 0, .keepalive "B" 0, .deliver "A", .deliver "B",
+                  .tick 64, .keepalive "A" 0, .tick 64]).map
+    (fun s => benignView 64 s "B" 10 [("A", ⟨100, 2, 0⟩), ("B", ⟨10, 10, 0⟩)]) = some false := by decide
+
+/-- `failover_after_loss_partial` instantiated, with a `mid` that is not empty and not only ticks: A (top) is killed in the
+    stable state; B keeps renewing and keeps processing the status (still paused: A's record is alive) while 11 s pass;
+    A's record has expired by then, B's own is fresh; B processes the status once more and is the active one. -/
+example : ∃ s s1 s2 s3, exStable = some s ∧ step 64 s (.kill "A") = some s1 ∧
+    run 64 s1 [.tick 256, .keepalive "B" 1, .deliver "B", .tick 256, .keepalive "B" 0, .tick 192] = some s2 ∧
+    run 64 s2 [.deliver "B"] = some s3 ∧ (s1.ops "B").map (·.paused) = some true ∧ (s2.ops "B").map (·.paused) = some true ∧
+    ExactlyTop s3 ∧ (s3.ops "B").map (·.paused) = some false := by
+  cases h : exStable with
+  | none => exact absurd h (by decide)
+  | some s =>
+    obtain ⟨_, _, _, _, _, hops⟩ := exStable_shape s h
+    have hst := exStable_stable s h
+    have hr : Reachable 64 s := reachable_run exRun init s Reachable.init h
+    let mid : List Label := [.tick 256, .keepalive "B" 1, .deliver "B", .tick 256, .keepalive "B" 0, .tick 192]
+    have tot : (exStable.bind (fun s => (step 64 s (.kill "A")).bind (fun s1 => (run 64 s1 mid).bind (fun s2 =>
+        (run 64 s2 [.deliver "B"]).map (fun s3 =>
+          ((s1.ops "B").map (·.paused), (s2.ops "B").map (·.paused), (s3.ops "B").map (·.paused),
+           s2.now, s2.status, (s2.ops "A").map (·.alive), (s2.ops "B").map (fun o => (o.alive, o.prio)))))))) =
+        some (some true, some true, some false, 704, [("A", ⟨100, 10, 0⟩), ("B", ⟨10, 8, 512⟩)], some false, some (true, 10)) := by decide
+    rw [h] at tot
+    simp only [Option.bind_some] at tot
+    cases h1 : step 64 s (.kill "A") with
+    | none => simp [h1] at tot
+    | some s1 =>
+      simp only [h1, Option.bind_some] at tot
+      cases h2 : run 64 s1 mid with
+      | none => simp [h2] at tot
+      | some s2 =>
+        simp only [h2, Option.bind_some] at tot
+        cases h3 : run 64 s2 [.deliver "B"] with
+        | none => simp [h3] at tot
+        | some s3 =>
+          simp only [h3, Option.map_some, Option.some.injEq, Prod.mk.injEq] at tot
+          obtain ⟨p1, p2, p3, hnow, hstat, hA2, hB2⟩ := tot
+          have hn2 : ∀ i, i ≠ "A" → i ≠ "B" → s2.ops i = none := by
+            intro i hA hB
+            have : s.ops i = none := by
+              cases hi : s.ops i with
+              | none => rfl
+              | some o => rcases hops i o hi with ⟨e, _⟩ | ⟨e, _⟩ <;> contradiction
+            have h12 : run 64 s (.kill "A" :: mid) = some s2 := by simp only [run, h1]; exact h2
+            exact ops_none_of_not_started _ s s2 this (by intro l hl p L e; rw [e] at hl; simp [mid] at hl) h12
+          have res := failover_after_loss_partial (a := "A") hst.good (sleepAlive_reachable hr) (Or.inl h1) mid
+            (by intro l hl; simp only [mid, List.mem_cons, List.mem_nil_iff, or_false] at hl
+                rcases hl with rfl | rfl | rfl | rfl | rfl | rfl <;> simp [Quiet])
+            h2
+            (by intro r hm; rw [hstat] at hm; simp at hm; rw [hm, hnow]; decide)
+            (by
+              intro i o hi ha
+              by_cases hiA : i = "A"
+              · subst hiA; rw [hi] at hA2; simp at hA2; rw [hA2] at ha; cases ha
+              · by_cases hiB : i = "B"
+                · subst hiB; rw [hi] at hB2; simp at hB2
+                  exact ⟨⟨10, 8, 512⟩, by rw [hstat]; simp, by simp [hB2.2], by rw [hnow]; decide⟩
+                · rw [hn2 i hiA hiB] at hi; cases hi)
+            [.deliver "B"] (fun l hl => by simp at hl; exact ⟨"B", hl⟩)
+            (by
+              intro i o hi ha
+              by_cases hiA : i = "A"
+              · subst hiA; rw [hi] at hA2; simp at hA2; rw [hA2] at ha; cases ha
+              · by_cases hiB : i = "B"
+                · subst hiB; simp
+                · rw [hn2 i hiA hiB] at hi; cases hi)
+            h3
+          exact ⟨s, s1, s2, s3, rfl, h1, h2, h3, p1, p2, res.1, p3⟩
 
 -- `equal_priority_both_paused`: two operators of priority 10, both delivered, both paused (concretely)
 example : ((run 64 init [.start "A" 10 10, .start "B" 10 10, .keepalive "A" 0, .keepalive "B" 0, .deliver "A", .deliver "B"]).map
